@@ -116,6 +116,23 @@ paths:
                 age: {type: integer, minimum: 0}
       responses:
         "200": {description: ok}` + def + `
+  /upload:
+    post:
+      operationId: postUpload
+      parameters:
+        - {name: n, in: query, required: false, schema: {type: integer}}
+      requestBody:
+        required: true
+        content:
+          multipart/form-data:
+            schema:
+              type: object
+              required: [owner]
+              properties:
+                owner: {type: string, minLength: 1, maxLength: 8}
+                note: {type: string}
+      responses:
+        "200": {description: ok}` + def + `
   /avatar:
     put:
       operationId: putAvatar
@@ -272,6 +289,22 @@ func matrixRequests() []Req {
 	f := func(cls, q, body, note string) Req {
 		return Req{Cls: cls, Params: true, BodyKind: "required", Method: "POST", Path: "/form", RawQuery: q, Header: hdr("Content-Type", "application/x-www-form-urlencoded"), Payload: js(body), Note: note}
 	}
+	// postUpload: multipart body; what the URL query carries is no part of the body
+	mp := func(cls, q, note string, fields ...string) Req {
+		var b strings.Builder
+		for i := 0; i+1 < len(fields); i += 2 {
+			b.WriteString("--XbX\r\nContent-Disposition: form-data; name=\"" + fields[i] + "\"\r\n\r\n" + fields[i+1] + "\r\n")
+		}
+		b.WriteString("--XbX--\r\n")
+		return Req{Cls: cls, Params: true, BodyKind: "required", Method: "POST", Path: "/upload", RawQuery: q, Header: hdr("Content-Type", "multipart/form-data; boundary=XbX"), Payload: js(b.String()), Note: note}
+	}
+	add(mp("valid", "", "valid multipart form", "owner", "alice", "note", "hi"))
+	add(mp("valid", "n=4", "valid multipart form with an optional query parameter", "owner", "bob"))
+	add(mp("valid", "note=fromquery", "valid multipart form; the query carries a pair named like an optional field", "owner", "bob"))
+	add(mp("body", "", "multipart form without its required field", "note", "hi"))
+	add(mp("body", "owner=mallory", "multipart form without its required field, the URL query carries a pair of that name", "note", "hi"))
+	add(mp("body", "owner=mallory", "empty multipart form, the URL query carries the required field's name"))
+	add(mp("body", "", "multipart field longer than maxLength", "owner", "abcdefghij"))
 	add(f("valid", "", "user=alice&age=3", "valid form"))
 	add(f("valid", "n=4", "user=a+b%21", "valid form with escapes and an optional query parameter"))
 	add(f("body", "", "age=3", "form without its required field"))
